@@ -67,6 +67,11 @@ class FakeSpatial:
 def gen_case(rng):
     nmol = rng.randint(1, 3)
     sizes = [rng.randint(1, 6) for _ in range(nmol)]
+    # copies of one molecule type that differ in a residue (a ligand attached to individual copies): same name, same
+    # number of residues, other residue types
+    same_name = nmol >= 2 and rng.random() < 0.35
+    if same_name:
+        sizes = [sizes[0]] * nmol
     box = [round(rng.uniform(2.0, 6.0), 3) for _ in range(3)]
     if rng.random() < 0.3:
         box = [box[0]] * 3
@@ -125,7 +130,7 @@ def gen_case(rng):
             excl = rng.sample(cand, rng.randint(0, min(3, len(cand))))
             ops.append(('force', g, p, excl))
     return {'nodes': nodes, 'box': box, 'vols': vols, 'init': init_pos, 'ops': ops,
-            'via_topology': rng.random() < 0.5, 'cut': round(rng.uniform(0.6, 2.2), 3)}
+            'via_topology': rng.random() < 0.5 or same_name, 'cut': round(rng.uniform(0.6, 2.2), 3), 'same_name': same_name}
 
 
 def make_engine(case):
@@ -144,7 +149,7 @@ def make_engine(case):
                     if case['init'][gi] is not None:
                         attrs['position'] = np.array(case['init'][gi])
                     g.add_node(k, **attrs)
-            g.mol_name = f'm{m}'
+            g.mol_name = 'm' if case.get('same_name') else f'm{m}'
             mols.append(g)
 
         class Top:
